@@ -162,7 +162,12 @@ def path_on_scalar_variable(rng, s, b):
 @mutator("C01")
 def dangling_ref(rng, s, b):
     setter, cur, kind, name = rng.choice(ref_positions(s))
-    setter((cur[0], 900 + rng.randrange(50)))
+    if rng.random() < 0.5:
+        setter((cur[0], 900 + rng.randrange(50)))
+    else:
+        # the next free ids of the collection: where entities generated during validation would land
+        ids = [e["id"] for e in s[COLL[cur[0]]]] if cur[0] in COLL else []
+        setter((cur[0], max(ids + [0]) + rng.choice([1, 1, 2, 3])))
     return "dangling %s" % name
 
 
